@@ -159,13 +159,24 @@ func (im *Importer) Import(v reflect.Value, t types.Type) Value {
 			return []Value(nil)
 		}
 		et := t.Underlying().(*types.Slice).Elem()
-		s := make([]Value, v.Len())
+		spare := 0
+		if im.Shared {
+			// A shared slice is given spare capacity (as slices built by append or by
+			// encoding/json have): an in-place append, insert or copy into it writes memory that
+			// other holders of the backing array can see, and is reported as a shared write.
+			spare = 2
+		}
+		s := make([]Value, v.Len(), v.Len()+spare)
 		for i := range s {
 			s[i] = im.Import(v.Index(i), et)
 		}
 		if im.Shared {
-			for i := range s {
-				im.M.MarkShared(&s[i])
+			full := s[:cap(s)]
+			for i := len(s); i < len(full); i++ {
+				full[i] = zero(et)
+			}
+			for i := range full {
+				im.M.MarkShared(&full[i])
 			}
 		}
 		return s
